@@ -82,6 +82,10 @@ func c12ProgOracle(e *progEnv, res *progStepResult) (sig, what string, descend b
 			return "unexplained:program:allcycles:" + name + ":" + mn, fmt.Sprintf("%s: AllCycles %d -> %d but Step reported %d after %v", name, res.pre[i].AllCycles, res.post[i].raw.AllCycles, cy, e.pathNames()), false
 		}
 		want := res.pre[i].Stopped || mn == "STP"
+		if symIntr(e.syms[res.sym].name) != 0 {
+			// an interrupt taken in this step redirects the fetch to the handler: whatever sits there executes
+			want = res.pre[i].Stopped || res.post[i].raw.Stopped
+		}
 		if res.post[i].stopped != want || res.post[i].raw.Stopped != want {
 			return "unexplained:program:stop-status:" + name + ":" + mn, fmt.Sprintf("%s: stopped result %v (field %v), want %v after %v (seed state %d)", name, res.post[i].stopped, res.post[i].raw.Stopped, want, e.pathNames(), e.seed), false
 		}
@@ -389,7 +393,7 @@ func c12Exec(w *c12World, r c12Run) (sig, what string) {
 func replayC12(raw json.RawMessage) (string, error) {
 	var pp progPath
 	if json.Unmarshal(raw, &pp) == nil && len(pp.Syms) > 0 {
-		return progReplay(pp, progSeeds(true), progAlphabetInt(), false, c12ProgOracle)
+		return progReplay(pp, progSeeds(true), progAlphabetInt(), false, c12ProgOracle, progOwnPC)
 	}
 	var rr c12Run
 	if json.Unmarshal(raw, &rr) == nil && len(rr.Prog) > 0 {
@@ -501,7 +505,7 @@ func runC12(r *report.Run) {
 		depth = 5
 	}
 	syms, seeds := progAlphabetInt(), progSeeds(true)
-	st, tr := progSearch(depth, seeds, syms, false, 0x9E3779B9, progVisitOf(r, 0x9E3779B9, c12ProgOracle))
+	st, tr := progSearch(depth, seeds, syms, false, 0x9E3779B9, progVisitOf(r, 0x9E3779B9, c12ProgOracle), progOwnPC)
 	// ---- RunUntil part
 	pdepth := 3
 	budgets := []uint64{0, 1, 2, 3, 5, 8, 13, 50}
